@@ -960,7 +960,7 @@ func main() {
 	}
 	// trait-level readers that compose a response and project it
 	ctie := res.Tie("composed-readers", "K1",
-		"every trait-level reader that composes its response and then projects it, or pages over stored items and projects the page (openclosepb Model/ModelServer GetPositions and Model.PullPositions with derived presets; ListModes, ListHails, ListPublications, ListConsumables, ListInventory, ListChildren, ListBookings, ListWasteRecords), on freshly generated populated instances: masked read vs the Lean filter of the UNMASKED read of the same instance; masks: nil, empty, every single path of the item's path tree to depth 2 (through repeated messages too), parent+child in both orders, unknown paths, random 1-3 paths to depth 3; subscriptions: seed + 2-4 single stored changes, an event is due exactly when the projection changes; non-trivial = non-empty mask; distinct by (reader, instance seed, mask)")
+		"every trait-level reader that composes its response and then projects it, or pages over stored items and projects the page (openclosepb Model/ModelServer GetPositions and Model.PullPositions with derived presets; ListModes, ListHails, ListPublications, ListConsumables, ListInventory, ListChildren, ListBookings, ListWasteRecords) and the server-streaming Pull RPC of each of those services through the in-process wrapper (PullPositions, PullModes, PullHails, PullPublications, PullConsumables, PullInventory, PullChildren, PullBookings, PullWasteRecords: every seed value under the mask vs the same stream without a mask), on freshly generated populated instances: masked read vs the Lean filter of the UNMASKED read of the same instance; masks: nil, empty, every single path of the item's path tree to depth 2 (through repeated messages too), parent+child in both orders, unknown paths, random 1-3 paths to depth 3; subscriptions: seed + 2-4 single stored changes, an event is due exactly when the projection changes; non-trivial = non-empty mask; distinct by (reader, instance seed, mask)")
 	cmon := res.Monitor("composed-read-semantics",
 		"for every trait-level reader and mask: each returned item / delivered value = independent projection of the corresponding unmasked item of the same instance; same number of items; the unmasked read after the masked read equals the one before (stored state not altered), messages returned by earlier reads do not change, repeating the masked read gives the same result; subscriptions deliver an event exactly when the projection of the current value changes, each equal to that projection; no panic for any mask")
 	runComposed(composedCases(g, f.N(12, 200), f.N(12, 120)), ctie, cmon, drv)
